@@ -231,9 +231,17 @@ func drawMuxOp(t *rapid.T, prof muxProfile) muxOp {
 		op.pkt = conv.PacketStruct(m, false)
 		switch gen.Uniform(t, 5, "wpmut") {
 		case 0:
-			// oversize payload
+			// oversize payload: far too big, or exceeding the room left by the adaptation field by 1..2 bytes only
 			op.pkt.Header.HasPayload = true
-			op.pkt.Payload = gen.Bytes(t, rapid.IntRange(185, 300).Draw(t, "wpbig"), "wpbigb")
+			n := rapid.IntRange(185, 300).Draw(t, "wpbig")
+			if gen.Bool(t, "wpedge") {
+				room := 184
+				if m.HasAF {
+					room -= m.AF.Size()
+				}
+				n = room + rapid.IntRange(1, 2).Draw(t, "wpover")
+			}
+			op.pkt.Payload = gen.Bytes(t, n, "wpbigb")
 		case 1:
 			// oversize private data
 			if op.pkt.AdaptationField != nil && !op.pkt.AdaptationField.IsOneByteStuffing {
